@@ -37,6 +37,8 @@ def lookup(interp, f):
             and not isinstance(f.__self__, types.ModuleType):
         owner = f.__self__
         name = f.__name__
+        if (type(owner), name) in _STRUCTURAL_METHODS:
+            return lambda interp_, *a, **kw: f(*a, **kw)
         m = _METHOD_MODELS.get((type(owner), name))
         if m is None:
             for k in type(owner).__mro__:
@@ -278,7 +280,7 @@ def m_all(I, it):
 @model(builtins.range)
 def m_range(I, *args):
     if any(isinstance(a, Sym) for a in args):
-        raise Unsupported("range() with symbolic bound needs a loop invariant")
+        args = [I.concrete_int(a) for a in args]
     try:
         return range(*args)
     except Exception as e:
@@ -543,6 +545,10 @@ _SBUF_METHODS = {
 
 _METHOD_MODELS = {}
 
+# methods that only store or move their arguments (no comparison, no hashing): safe with symbolic values
+_STRUCTURAL_METHODS = {(list, 'append'), (list, 'clear'), (list, 'copy'), (list, 'reverse'),
+                       (dict, 'copy'), (dict, 'clear'), (dict, 'items'), (dict, 'keys'), (dict, 'values')}
+
 def method_model(tp, name):
     def deco(fn):
         _METHOD_MODELS[(tp, name)] = fn
@@ -709,6 +715,8 @@ def _parse_fmt(fmt):
                 items.append((ch, 1))
     return ('>' if order in '>!' else '<'), items
 
+F32_OVERFLOW_R = z3.RealVal((2 ** 25 - 1) * 2 ** 103)     # (2 - 2**-24) * 2**127
+
 def f32_word(x):
     return z3.Function('f32_bits', z3.RealSort(), z3.IntSort())(x)
 
@@ -722,10 +730,13 @@ def f64_value(w):
     return z3.Function('f64_val', z3.IntSort(), z3.RealSort())(w)
 
 def _word_octets(w, size, order):
+    """big-endian octets of the word term w (0 <= w < 2**(8*size)) as canonical field terms"""
+    from . import bitfield
     octs = []
     for j in range(size):
         sh = 8 * (size - 1 - j)
-        octs.append(z3.simplify((w / z3.IntVal(1 << sh)) % 256) if sh else z3.simplify(w % 256))
+        o = bitfield.field(w, (1 << (8 * size)) - 1, sh, 8)
+        octs.append(o if isinstance(o, int) else o.t)
     if order == '<':
         octs.reverse()
     return octs
@@ -758,9 +769,18 @@ def m_struct_pack(I, fmt, *vals):
             if r is None:
                 _raise(I, _struct.error("required argument is not a float"))
             size = 4 if code == 'f' else 8
+            if code == 'f':
+                # struct refuses finite values that round to infinity in binary32
+                if I.ctx.decide(z3.Or(r >= F32_OVERFLOW_R, r <= -F32_OVERFLOW_R)):
+                    _raise(I, OverflowError("float too large to pack with f format"))
             w = f32_word(r) if code == 'f' else f64_word(r)
             I.ctx.assumptions.add("struct.pack/unpack of IEEE-754 floats: uninterpreted word function with unpack(pack(x)) == round(x) axiom")
             I.ctx.fact(z3.And(w >= 0, w < (1 << (8 * size))))
+            # unpack(pack(x)) is x rounded to the format (round64 is the identity on Python floats)
+            if code == 'f':
+                I.ctx.fact(f32_value(w) == z3.Function('round32', z3.RealSort(), z3.RealSort())(r))
+            else:
+                I.ctx.fact(f64_value(w) == r)
             chunks.extend(_word_octets(w, size, order))
         else:
             raise Unsupported("struct code %r with symbolic value" % code)
@@ -802,13 +822,14 @@ def m_struct_unpack(I, fmt, data):
     out = []
     for code, _ in items:
         size = _INT_CODES[code][0] if code in _INT_CODES else (4 if code == 'f' else 8)
-        octs = [int_term(bufops.index(I.ctx, data, pos + j)) for j in range(size)]
+        import ast as _ast
+        octs = [bufops.index(I.ctx, data, pos + j) for j in range(size)]
         if order == '<':
             octs.reverse()
-        w = z3.IntVal(0)
-        for o in octs:
-            w = w * 256 + o
-        w = z3.simplify(w)
+        acc = octs[0]
+        for o in octs[1:]:
+            acc = I.binop(_ast.Add(), I.binop(_ast.Mult(), acc, 256), o)     # field algebra recombines adjacent octets
+        w = int_term(acc)
         if code in _INT_CODES:
             signed = _INT_CODES[code][1]
             if signed:
